@@ -284,3 +284,33 @@ func lemmaContMatch4(port uint32, mac, mask net.HardwareAddr, et uint16, ip, ipm
 	b2, _ = d.MarshalBinary()
 	return
 }
+
+// C03: builder sequences of the conntrack action (commit, then force, then table and an immediate zone) and the
+// register match with a bit range, encoded.
+func lemmaCtorConnTrackBuilders(table uint8, zone uint16) (b []byte) {
+	c := NewNXActionConnTrack()
+	c.Commit()
+	c.Force()
+	c.Table(table)
+	c.ZoneImm(zone)
+	b, _ = c.MarshalBinary()
+	return
+}
+
+func lemmaCtorConnTrackForceCommit() (b []byte) {
+	b, _ = NewNXActionConnTrack().Force().Commit().MarshalBinary()
+	return
+}
+
+func lemmaCtorNewRegMatchField(idx int, data uint32, first, last int) (b []byte) {
+	b, _ = NewRegMatchField(idx, data, NewNXRange(first, last)).MarshalBinary()
+	return
+}
+
+func lemmaCtorNewRegMatchFieldNoRange(idx int, data uint32) (b []byte) {
+	b, _ = NewRegMatchField(idx, data, nil).MarshalBinary()
+	return
+}
+
+// C04, instance level: a hello whose first element is of an unknown type with a length that is not a multiple of 4
+func lemmaParseHelloUnknownThenBitmap(b []byte) (util.Message, error) { return Parse(b) }
